@@ -334,6 +334,10 @@ func drawEvents(t *Tape, sc *Scenario) {
 			}
 		}
 	}
+	// now and then a second release follows the first
+	if t.Next(8) == 0 {
+		sc.Events = append(sc.Events, UserEvent{Kind: "release-v3-late"})
+	}
 }
 
 func pctOver(v string, limit int) bool {
